@@ -774,6 +774,7 @@ def run(repo, res, tier):
     # (a description printed raw between quotes is a different text as soon as it contains a quote, `$` or a backslash): shared with C07
     from . import c07
     c07.sink_rule(repo, res, ty)
+    c07.enc_rule(repo, res, tier=tier)  # .. and the encoder itself maps the text to a constant that the shell reads back as that text (ENC, shared with C07)
     tot_s = tot_i = 0
     for mod in RE.EMITTERS:
         base = RE.module_base(repo, mod)
